@@ -320,7 +320,7 @@ PARTS = {"mc": (mc_case, run_mc), "fbmc": (fb_case, run_fb)}
 
 def plan(tier):
     if tier == "quick":
-        return [{"part": "mc", "shards": 11, "budget": {"n_examples": 60}}, {"part": "fbmc", "shards": 3, "budget": {"n_examples": 80}}, {"part": "hashseed", "shards": 2, "budget": {"n_examples": 40}}]
+        return [{"part": "mc", "shards": 11, "budget": {"n_examples": 180}}, {"part": "fbmc", "shards": 3, "budget": {"n_examples": 240}}, {"part": "hashseed", "shards": 2, "budget": {"n_examples": 120}}]
     return [{"part": "mc", "shards": 11, "budget": {"n_examples": 4500}}, {"part": "fbmc", "shards": 3, "budget": {"n_examples": 4000}}, {"part": "hashseed", "shards": 2, "budget": {"n_examples": 1500}}]
 
 
